@@ -388,7 +388,10 @@ func runC08(p *Prog, r *Report) {
 			propagated := false
 			for _, ret := range returnsOf(run) {
 				if guardedBy(ret, func(a Atom) bool {
-					m, isNil := nilTestOn(a, func(v ssa.Value) bool { ex, ok := v.(*ssa.Extract); return ok && ex.Tuple == ssa.Value(call) && ex.Index == 1 })
+					m, isNil := nilTestOn(a, func(v ssa.Value) bool {
+						ex, ok := v.(*ssa.Extract)
+						return ok && ex.Tuple == ssa.Value(call) && ex.Index == 1
+					})
 					return m && !isNil
 				}) {
 					for _, v := range retVals(ret, 1) {
